@@ -316,6 +316,12 @@ def build(model):
                 if len(cks) <= 300:
                     r['chunks'] = cks
         pm['records'].append(r)
+    if ph.get('tape_marks') and ph['tif'] != 'none':
+        # a multi-file tape image: one tape mark behind every logical file (its trailer, or its last record), two at the end
+        ends = [i for i, (w, _) in enumerate(recs) if w[0] == 'file-tail']
+        if not ends:
+            ends = [i - 1 for i, (w, _) in enumerate(recs) if w[0] == 'file-head' and i > 0]
+        pm['marks_after'] = [i for i in ends if i < len(recs) - 1]
     LP.fix_reversed(pm)
     by, layout = LP.build(pm)
     layout['what'] = [w for w, _ in recs]
@@ -383,7 +389,7 @@ def gen_file(rng, fi, max_frames=40, names_pool=None):
     rng.shuffle(pool)
     indirect = rng.chance(0.45)
     updown = rng.pick([1, 255, 0])
-    nch = rng.wpick([(2, 1), (5, rng.randrange(2, 6)), (2, rng.randrange(5, 9))])
+    nch = rng.wpick([(4, 1), (10, rng.randrange(2, 6)), (4, rng.randrange(5, 9)), (2, rng.randrange(9, 21)), (1, rng.randrange(33, 41))])
     while len(pool) < nch:
         pool.append('C%03d' % len(pool))
     sp = rng.pick([0.5, 1.0, 6.0, 60.0, 0.25, 2.0])
@@ -478,7 +484,7 @@ def make_huge(f, target_bytes=6_900_000):
     f.pop('alt', None)
 
 
-def gen_model(rng, max_frames=40, names_pool=None, max_files=2, small_pr=False, allow_alt=False, huge=False, tif_pad=False):
+def gen_model(rng, max_frames=40, names_pool=None, max_files=2, small_pr=False, allow_alt=False, huge=False, tif_pad=False, tape_marks=False):
     rec = rng.chance(0.25)
     filen = rng.pick([None, None, None, 1, 7])
     chk = rng.chance(0.2)
@@ -501,6 +507,12 @@ def gen_model(rng, max_frames=40, names_pool=None, max_files=2, small_pr=False, 
              'pre': pre, 'post': rng.chance(0.7), 'files': _gen_files(rng, 2 if parity_shape else nfiles, max_frames, names_pool, allow_alt, parity_shape)}
     if huge:
         make_huge(model['files'][0])
+    if tape_marks:
+        if model['phys']['tif'] == 'none':
+            model['phys']['tif'] = rng.pick(['normal', 'normal', 'reversed'])
+        model['phys']['tape_marks'] = True
+        if len(model['files']) < 2:
+            model['files'] += _gen_files(rng, 1, min(max_frames, 6), names_pool, False)
     if tif_pad:
         if model['phys']['tif'] == 'none':
             model['phys']['tif'] = rng.pick(['normal', 'normal', 'reversed'])
